@@ -1,7 +1,6 @@
 package atp
 
 import (
-	"io"
 	"context"
 	"sync"
 
@@ -78,21 +77,6 @@ type verifSession struct {
 	srvErrs []*ServerError
 	srvDone sync.WaitGroup
 	toSrvW  interface{ Close() error }
-	fromSrv io.ReadCloser
-}
-
-// drain reads whatever the server still writes after the client has stopped listening (a step that finishes late):
-// an operating-system pipe would buffer it, the unbuffered pipes of the harness need a reader
-func (s *verifSession) drain() {
-	go func() {
-		dec := cbor.NewDecoder(s.fromSrv)
-		for {
-			var m any
-			if dec.Decode(&m) != nil {
-				return
-			}
-		}
-	}()
 }
 
 // verifStartSession wires a client to the real server over two pipes and performs the handshake.
@@ -102,7 +86,7 @@ func verifStartSession(plugin *schema.CallableSchema) (*verifSession, error) {
 	defer verifSchedQuiet(false)
 	toSrvR, toSrvW := verifNewPipe()
 	fromSrvR, fromSrvW := verifNewPipe()
-	s := &verifSession{toSrvW: toSrvW, fromSrv: fromSrvR}
+	s := &verifSession{toSrvW: toSrvW}
 	s.srvDone.Add(1)
 	go func() {
 		defer s.srvDone.Done()
